@@ -17,9 +17,11 @@ def run(ctx, proofs):
     propeng.verdict(ctx, proofs, r, kinds=("value", "degree", "finding", None),
                     known_classes=("ctl-merge",),
                     extra_cov={"budgets": BUDGETS,
-                               "open_statements": ["the universal theorem C20_mirror_validated_at_every_budget covers value claims; the "
-                                                   "corresponding statement for degree ranges (SemDeg-validity at every budget) is established "
-                                                   "per explored definition by the finite-difference oracle only"]})
+                               "open_statements": ["the universal budget theorems (C20_mirror_validated_at_every_budget for value claims, "
+                                                   "C20_degrees_validated_at_every_budget / C20_propagate_degrees_validated_at_every_budget for degree "
+                                                   "ranges) are about the mirror Model.Propagate, which is compared with the implementation pass by pass on "
+                                                   "every explored definition; joins under signal-dependent control are outside the degree semantics "
+                                                   "(known finding C20-ctl-merge)"]})
 
 
 def replay(ctx, rep):
